@@ -335,10 +335,19 @@ impl Clock {
 			fractional_position: tick_timer,
 		} = &mut self.state
 		{
-			*tick_timer += self.speed.value().as_ticks_per_second() * dt;
-			while *tick_timer >= 1.0 {
-				*tick_timer -= 1.0;
-				*ticks += 1;
+			let ticks_per_second = self.speed.value().as_ticks_per_second();
+			// a speed of 0 seconds per tick is an infinite tick rate. those
+			// ticks cannot be counted, so the clock stands still instead
+			if ticks_per_second.is_finite() {
+				*tick_timer += ticks_per_second * dt;
+			}
+			// count all of the whole ticks that passed at once. counting them
+			// one by one would take unboundedly long at very high speeds (for
+			// instance, while tweening towards 0 seconds per tick)
+			if *tick_timer >= 1.0 {
+				let whole_ticks = tick_timer.floor();
+				*tick_timer -= whole_ticks;
+				*ticks = ticks.saturating_add(whole_ticks as u64);
 				new_tick_count = Some(*ticks);
 			}
 		} else {
